@@ -462,6 +462,31 @@ class Normaliser:
                 if isinstance(par, ast.Attribute) and par.value is u and par.attr not in fields:
                     gp = next((g for g in ast.walk(fn) if isinstance(g, ast.Call) and g.func is par), None)
                     if gp is None:
+                        # a property of the record with a single return: its expression, on the record
+                        m = c.own.get(par.attr)
+                        if isinstance(m, ast.FunctionDef) and [ast.unparse(d) for d in m.decorator_list] == ['property'] and not self.budget_exhausted():
+                            body = _docless(m.body)
+                            if len(body) == 1 and isinstance(body[0], ast.Return) and body[0].value is not None and len(m.args.args) == 1:
+                                expr = _Subst({m.args.args[0].arg: ast.Name(id=v, ctx=ast.Load())}, {}, c.module.name).visit(clone(body[0].value, c.module.name))
+                                self._mark(expr, par)
+                                self._replace(fn, par, expr)
+                                rewritten = True
+                        continue
+                    if par.attr == '_asdict' and not gp.args and not gp.keywords:
+                        # f(**record._asdict()): the fields as keywords
+                        host = next((h for h in ast.walk(fn) if isinstance(h, ast.Call) and any(k.arg is None and k.value is gp for k in h.keywords)), None)
+                        if host is not None:
+                            kws = []
+                            for k in host.keywords:
+                                if k.arg is None and k.value is gp:
+                                    for fname in fields:
+                                        kws.append(ast.keyword(arg=fname, value=ast.Attribute(value=ast.Name(id=v, ctx=ast.Load()), attr=fname, ctx=ast.Load())))
+                                else:
+                                    kws.append(k)
+                            host.keywords = kws
+                            for k in kws:
+                                self._mark(k.value, asg)
+                            rewritten = True
                         continue
                     if par.attr == '_replace' and not gp.args and all(k.arg in fields for k in gp.keywords):
                         new_vals = list(vals)
@@ -1085,6 +1110,14 @@ class Normaliser:
                     if isinstance(node, ast.FunctionDef) and self.func_unknown(world.canonical(f'{q}.{f.attr}')) and not isinstance(getattr(node, '_parent', None), ast.ClassDef):
                         return node, node._module.name, None, 'function'
             if target_cls is None:
+                # X.m(...) on any receiver, where m is a new method name that exactly one class of the package defines
+                # (and nothing overrides): the call can only reach that definition
+                owners = [k for k in table.classes.values() if isinstance(k.own.get(f.attr), ast.FunctionDef)]
+                if len(owners) == 1 and not f.attr.startswith('__') and self.func_unknown(f'{owners[0].qual}.{f.attr}') and f.attr not in self.known_method_names:
+                    node = owners[0].own[f.attr]
+                    decos = _decorators(world, node)
+                    if not decos and isinstance(recv, (ast.Name, ast.Attribute)):
+                        return node, owners[0].module.name, recv, 'method'
                 return None
             r = table.resolve(target_cls, f.attr)
             if r is None or not isinstance(r.node, ast.FunctionDef) or r.owner is None or r.is_property:
